@@ -102,7 +102,7 @@ def run_impl(case):
         return lambda: LoggedEnv(case["scripts"][e], obs_kind=case["obs"] if obs_space is None else "box1", act_kind=case["act"], obs_space=obs_space, env_id=e)
 
     base = DummyVecEnv([mk(e) for e in range(ne)])
-    venv = VecNormalize(base, norm_obs=True, norm_reward=True, clip_obs=1e9, clip_reward=1e9, gamma=0.9) if case["vecnorm"] else base
+    venv = VecNormalize(base, norm_obs=True, norm_reward=True, clip_obs=case.get("vn_clip") or 1e9, clip_reward=1e9, gamma=0.9) if case["vecnorm"] else base
     ospace = base.observation_space
     aspace = base.action_space
     adim = int(np.prod(aspace.shape)) if isinstance(aspace, spaces.Box) else 1
@@ -177,8 +177,22 @@ def run_impl(case):
         b = np.asarray(batch, dtype=np.float64)
         return float(np.max(np.abs(b - np.rint(b)))) if b.size else 0.0
 
+    def vn_info(next_obs, done):
+        """under VecNormalize: distance of the stored next observation of a done transition to the raw terminal observation,
+        and to unnormalize(normalize(raw)) with the statistics in force (normalize clips)"""
+        out = {}
+        for e in range(ne):
+            if not bool(np.asarray(done).reshape(-1)[e]):
+                continue
+            tag = [r for r in base.envs[e].gt if r[0] == "step"][-1][1]
+            raw = np.asarray(se.encode(ospace, tag), dtype=np.float64)
+            rt = np.asarray(venv.unnormalize_obs(venv.normalize_obs(raw.astype(np.float32))), dtype=np.float64)
+            got = np.asarray(next_obs[e], dtype=np.float64)
+            out[e] = {"raw": tag, "raw_diff": float(np.max(np.abs(got - raw))), "rt_diff": float(np.max(np.abs(got - rt))), "stored": float(got.reshape(-1)[0])}
+        return out
+
     def add(obs, next_obs, action, reward, done, infos):
-        adds.append({"obs": tags(obs), "next": tags(next_obs), "action": np.array(action, dtype=np.float64).reshape(ne, -1).tolist(),
+        adds.append({"vn": vn_info(next_obs, done) if case["vecnorm"] else {},"obs": tags(obs), "next": tags(next_obs), "action": np.array(action, dtype=np.float64).reshape(ne, -1).tolist(),
                      "reward": np.array(reward, dtype=np.float64).reshape(-1).tolist(), "done": [bool(d) for d in np.asarray(done).reshape(-1)],
                      "timeout": [bool(i.get("TimeLimit.truncated", False)) for i in infos],
                      "raw_err": max(raw_err(obs), raw_err(next_obs)) if case["vecnorm"] else 0.0, "call": len(call_info)})
@@ -244,10 +258,18 @@ def oracle(case, impl):
             where = f"add {g} env {e}"
             if ad["obs"][e] != s["saw"]:
                 probs.append(("oracle-observation", f"{where}: stored observation {ad['obs'][e]}, the agent acted on {s['saw']}"))
-            if ad["next"][e] != s["tag"]:
+            vn = ad.get("vn", {}).get(e, ad.get("vn", {}).get(str(e)))
+            if vn is not None:
+                tol = 1e-3 * max(1.0, abs(vn["raw"]))
+                if vn["raw_diff"] > tol:
+                    clipped = vn["rt_diff"] <= tol and case.get("vn_clip")
+                    probs.append(("vecnormalize-terminal-obs-clipped" if clipped else "oracle-next-observation",
+                                  f"{where}: under VecNormalize(clip_obs={case.get('vn_clip')}) the stored next observation of the episode-ending transition is {vn['stored']}, "
+                                  f"the raw terminal observation is {vn['raw']}" + (" (= unnormalize(clip(normalize(raw))))" if clipped else "")))
+            elif ad["next"][e] != s["tag"]:
                 kind = "oracle-next-obs-is-reset-obs" if s["done"] and ad["next"][e] == s["returned"] else "oracle-next-observation"
                 probs.append((kind, f"{where}: stored next observation {ad['next'][e]}, true successor {s['tag']} (done={s['done']}, auto-reset obs {s['returned']})"))
-            if ad["raw_err"] > 1e-2:
+            if ad["raw_err"] > 1e-2 and vn is None:
                 probs.append(("oracle-raw-observation-under-normalisation", f"{where}: stored observation is not the raw one (distance to an integer tag {ad['raw_err']})"))
             if abs(ad["reward"][e] - s["r"]) > 1e-6:
                 probs.append(("oracle-reward", f"{where}: stored reward {ad['reward'][e]}, raw env reward {s['r']}"))
